@@ -16,6 +16,9 @@ def state_fn(cfg, h, m, ref):
 def report(ctx):
     def on_violation(cfgname, hist, v):
         tag, detail = v
+        if tag == 'refine-raised':
+            ctx.refine_raised = getattr(ctx, 'refine_raised', 0) + 1  # a bisection failed: C02's business, the state is not reachable
+            return
         ctx.violation({'cfg': cfgname, 'tag': tag},
                       '{} after history {} on {}: {}'.format(tag, list(hist), cfgname, detail),
                       {'cfg': cfgname, 'history': [[list(r), ax] for r, ax in hist], 'tag': tag})
@@ -47,7 +50,7 @@ def run(ctx):
         'edges_with_two_neighbours': int(st.extra.get('edges_with_two_neighbours', 0)),
         'self_adjacent_edges': int(st.extra.get('self_adjacent_edges', 0)),
         'distinct_leaf_sets': st.leafsets, 'per_config': st.per_cfg, 'samples': st.samples[:8],
-        'supplementary_random_walk_states': nrw,
+        'supplementary_random_walk_states': nrw, 'bisections_that_raised_and_were_left_to_C02': getattr(ctx, 'refine_raised', 0),
         'exhaustive': not any(c['capped'] for c in st.per_cfg.values()),
         'explanation': 'same BFS state graph as C02; in every state, for every edge of every leaf: reported set == '
                        'geometric set of the reference (seam identified), <=2, all leaves, symmetric, boundary/glued flags',
